@@ -49,6 +49,37 @@ def run(ctx):
         _check_perms(ctx, g, rs, ci)
         if ctx.out_of_time(100 if ctx.quick else 900):
             break
+    # tie-breaking of the anchor choice: walks whose scaffold steps are half forward, half reverse (the anchor is the FIRST node then) with the
+    # first scaffold step reversed and a last scaffold node of another BO, among ordinary walks; every permutation (added after seeded change C08-3)
+    from rtc.gen import make_rgfa
+    rng = ctx.rng
+    want = 4 if ctx.quick else 40
+    found = 0
+    for _try in range(400):
+        if found >= want:
+            break
+        g = make_rgfa(rng, n_ref=rng.randint(3, 5), max_len=3, n_bubbles=rng.randint(0, 2), inversion=True, n_chrom=1, link_tags=False)
+        sortlib.tag_graph(rng, g, 0.1)
+
+        def scaf(w):
+            return [(n, o) for n, o in w if getattr(g.by_id[n], "bo", -1) != -1 and getattr(g.by_id[n], "no", -1) == 0]
+        walks = list(g.walks(3))
+        ties = [w for w in walks if scaf(w) and [o for _n, o in scaf(w)].count(">") == [o for _n, o in scaf(w)].count("<")
+                and scaf(w)[0][1] == "<" and g.by_id[scaf(w)[0][0]].bo != g.by_id[scaf(w)[-1][0]].bo]
+        if not ties:
+            continue
+        plain = [w for w in walks if w not in ties]
+        pick = rng.sample(ties, min(2, len(ties))) + rng.sample(plain, min(2, len(plain)))
+        rs = []
+        for i, w in enumerate(pick):
+            pl = sum(g.by_id[n].ln for n, _ in w)
+            ps = rng.randint(0, pl - 1)
+            pe = rng.randint(ps + 1, pl)
+            rs.append((w, ps, pe, sortlib.gaf_record(g, w, ps, pe, name="t%d_%d" % (found, i), tags=("NM:i:%d" % i,))))
+        _check_perms(ctx, g, rs, 1000 + found)
+        found += 1
+    ctx.bound("anchor ties: %d random tagged graphs with an inversion link; per graph up to 2 walks whose scaffold steps are half '>' half '<', "
+              "start reversed and end on a scaffold node of another BO, + 2 other walks, random offsets x all permutations" % found)
     return ("compare_gaf on all pairs (and triples) of a 54-record domain vs. the key order; `gaftools sort` on every permutation of "
             "2-5 records over random tagged graphs vs. an independent oracle; a case is non-trivial when the two records differ / "
             "the permutation is distinct")
